@@ -19,7 +19,7 @@ from pyglove.core.geno import sweeping, random as geno_random, deduping
 from pyglove.core import geno
 from pyvc.contracts import Contract, register, spec, direct
 from pyvc.spec import implies, iff, ite
-from pyvc.values import SBool, SInt, SReal, SObj, SAny, SSeq, SChoice, simplify_concrete
+from pyvc.values import SBool, SInt, SReal, SObj, SAny, SSeq, SChoice, PList, simplify_concrete
 from pyvc import interp as I, absobj, loops
 
 G = 'pyglove.core.geno.dna_generator'
@@ -407,3 +407,140 @@ class RandomReplay(_ContinuationReplay, _RandomBase):
     if interp.resolve(self._seed) is None:
       return True
     return len(d) == 1 and d[0][0] is self._spec and d[0][1] is self._rng
+
+
+# ---------------------------------------------------------------------------
+# Deduping: the de-duplication memory (hash key -> rewards fed back) is part of
+# the observable state; the automatic reward of a later duplicate is computed
+# from ALL rewards recorded under its key.  Relational step: the live feedback
+# and the replay of the same record do the same thing to the memory -- each
+# hands (dna, reward) to `_add_dna_to_cache` exactly once, unconditionally, and
+# delegates once to the inner generator (feedback -> generator.feedback,
+# replay -> generator._replay).  `_add_dna_to_cache` itself appends the reward
+# to the entry of the DNA's dedup key and touches no other entry.
+
+DD = 'pyglove.core.geno.deduping'
+
+
+class _DedupStep(Contract):
+  prop = 'C15'
+  raises = {Exception: ()}
+  inner_method = None
+
+  def inputs(self, b):
+    self._dna = absobj.ref(geno.DNA, z3.Int('d'))
+    self._reward = b.real('reward')
+    inner = SAny('inner', label='inner')
+    self_ = SObj(deduping.Deduping, {'generator': inner, '_cache': SAny('cache', label='cache'),
+                                     'max_duplicates': b.int('max_duplicates', lo=1)}, name='self')
+    args = dict(self=self_, dna=self._dna, reward=self._reward)
+    if self.inner_method == '_replay':
+      args['trial_id'] = b.int('trial_id', lo=1)
+    return args, {}
+
+  def setup_policy(self, policy):
+    def add(interp, frame, args, kwargs):
+      interp.path.event('memory', 'add', tuple(args[1:]) + tuple(kwargs.values()))
+      return None
+    policy.contracts[f'{DD}:Deduping._add_dna_to_cache'] = add
+
+    def call_opaque(interp, fn, args, kwargs, frame):
+      if fn.label == 'inner':
+        interp.path.event('inner', fn.tag.rsplit('.', 1)[-1], tuple(args))
+        return None
+      if fn.label == 'cache':
+        # a look at (or a write to) the memory from the step itself
+        interp.path.event('memory', 'direct:' + fn.tag.rsplit('.', 1)[-1], tuple(args))
+        return SAny(fn.tag + '()')
+      return NotImplemented
+    policy.handlers[('call_opaque',)] = call_opaque
+
+  def trace_records_the_reward_exactly_once_unconditionally(self, events, outcome, interp, env):
+    if outcome[0] != 'return':
+      return False
+    mem = [e for e in events if e.kind == 'memory']
+    if len(mem) != 1 or mem[0].what != 'add':
+      return False
+    d, r = (interp.resolve(x) for x in mem[0].data[:2])
+    return d is interp.resolve(env['dna']) and r is interp.resolve(env['reward'])
+
+  def trace_delegates_once_to_the_inner_algorithm(self, events, outcome, interp, env):
+    inner = [e for e in events if e.kind == 'inner']
+    return len(inner) == 1 and inner[0].what == self.inner_method and \
+        interp.resolve(inner[0].data[-2]) is interp.resolve(env['dna']) and \
+        interp.resolve(inner[0].data[-1]) is interp.resolve(env['reward'])
+
+  def replay(self, obligation, m):
+    import json
+    space = pg.dna_spec(pg.Dict(x=pg.oneof([1, 2])))
+
+    def make():
+      return pg.geno.Deduping(pg.evolution.regularized_evolution(population_size=2, tournament_size=2, seed=1),
+                              hash_fn=lambda d: d.value, max_duplicates=2, auto_reward_fn=sum)
+    live = make(); live.setup(space)
+    hist = []
+    for i in range(8):
+      d = live.propose()
+      r = d.metadata.get('reward', float(i))
+      live.feedback(d, r)
+      hist.append((pg.from_json_str(pg.to_json_str(d)), r))
+    rec = make(); rec.setup(space); rec.recover(hist)
+    same = live._cache == rec._cache
+    return dict(outcome='not-reproduced' if same else 'reproduced',
+                detail=f'8 feedbacks on a 2-point space, max_duplicates=2, auto reward: live memory {live._cache!r}, recovered {rec._cache!r}')
+
+
+@register
+class DedupingFeedback(_DedupStep):
+  target = f'{DD}:Deduping._feedback'
+  inner_method = 'feedback'
+
+
+@register
+class DedupingReplay(_DedupStep):
+  target = f'{DD}:Deduping._replay'
+  inner_method = '_replay'
+
+
+@register
+class DedupingMemoryAppend(Contract):
+  """`_add_dna_to_cache`: the entry of the DNA's key is the old entry + [reward];
+  every other entry is untouched.  The cache is a concrete small dict (shapes:
+  empty / the key present with n rewards / only another key present), the
+  rewards and the new reward symbolic."""
+  prop = 'C15'
+  target = f'{DD}:Deduping._add_dna_to_cache'
+  raises = {Exception: ()}
+  variants = ('empty', 'key-present-1', 'key-present-3', 'other-key-only', 'both')
+
+  def inputs(self, b):
+    r = [b.real(f'r{i}') for i in range(4)]
+    shapes = {'empty': {}, 'key-present-1': {'k': [r[0]]}, 'key-present-3': {'k': [r[0], r[1], r[2]]},
+              'other-key-only': {'j': [r[3]]}, 'both': {'j': [r[3]], 'k': [r[0], r[1]]}}
+    self._before = {k: list(v) for k, v in shapes[self.variant].items()}
+    self._cache = {k: PList(v) for k, v in shapes[self.variant].items()}
+    dna = SAny('dna')
+    md = SAny('metadata', label='metadata')
+    dna.memo[('attr', 'metadata')] = md
+    self_ = SObj(deduping.Deduping, {'_cache': self._cache}, name='self')
+    self._reward = b.real('reward')
+    return dict(self=self_, dna=dna, reward=self._reward), {}
+
+  def setup_policy(self, policy):
+    def call_opaque(interp, fn, args, kwargs, frame):
+      if fn.label == 'metadata' and fn.tag.endswith('.get') and interp.resolve(args[0]) == 'dedup_key':
+        return 'k'
+      return NotImplemented
+    policy.handlers[('call_opaque',)] = call_opaque
+
+  def ensures_entry_is_old_entry_plus_reward_others_untouched(self, self_, interp=None):
+    c = self._cache
+    want = dict(self._before)
+    want['k'] = want.get('k', []) + [self._reward]
+    if set(c.keys()) != set(want.keys()):
+      return False
+    for k, v in want.items():
+      got = list(c[k])
+      if len(got) != len(v) or any(a is not b_ for a, b_ in zip(got, v)):
+        return False
+    return True
